@@ -626,6 +626,26 @@ Definition verdict_classify_enc_C18 (a : list val) (out : val) : N :=
   | _ => NOT_JUDGED
   end.
 
+(* classify_pair: args [A; B]: classify A, keep its error, classify B, look at A's error again
+   -> [error of A right away; error of A afterwards].  Errors are values in the model. *)
+Definition classify_err (v : list N) : val :=
+  match looks_like (exact v) false with
+  | Ok (_, None) => VL []
+  | Ok (_, Some e) => VL (proj_err e)
+  | _ => v_panic
+  end.
+Definition run_classify_pair (a : list val) : val :=
+  match a with
+  | [VB x; VB _] => VL [classify_err x; classify_err x]
+  | _ => v_bad
+  end.
+Definition verdict_classify_pair_C18 (a : list val) (out : val) : N :=
+  match a, out with
+  | [VB x; VB _], VL [early; late] =>
+      if val_eqb early late && val_eqb early (classify_err x) then HOLDS else VIOLATES
+  | _, _ => VIOLATES
+  end.
+
 (* ---------- package-level sentinel errors (C10: a result depends on its input only) ----------
    sentinels: no arguments -> the fields and wire bytes of ErrTCPDataTooShort and ErrIsNotTCPPacket
    after all the calls of the stream; the model has no state: they are what error.go declares *)
@@ -682,6 +702,8 @@ Definition table_packet : list entry :=
        e_verdict := fun p a o => if p =? 11 then verdict_coil_readback_C11 a o else NOT_JUDGED |};
     {| e_name := "classify"; e_run := run_classify;
        e_verdict := fun p a o => if p =? 18 then verdict_classify_C18 a o else NOT_JUDGED |};
+    {| e_name := "classify_pair"; e_run := run_classify_pair;
+       e_verdict := fun p a o => if (p =? 10) || (p =? 18) then verdict_classify_pair_C18 a o else NOT_JUDGED |};
     {| e_name := "sentinels"; e_run := run_sentinels;
        e_verdict := fun p a o => if (p =? 10) || (p =? 18) then verdict_sentinels_C10 a o else NOT_JUDGED |};
     {| e_name := "classify_enc"; e_run := run_classify_enc;
